@@ -232,6 +232,16 @@ Definition has_tail_template (t : table) : bool :=
                                               (tokenize (s_root w) ++ tokenize (r_rel r)))
                             (s_routes w)) (t_services t).
 
+(* some template has a token that the compiled expression lets match the empty string: a tail wildcard, or a
+   regular expression that admits "" (oracle) *)
+Definition has_emptiable_token (O : oracles) (t : table) : bool :=
+  existsb (fun w => existsb (fun r => existsb (fun tok => match fst (etok_of tok) with
+                                                          | EAll => true
+                                                          | ERx re => o_rxfull O re []
+                                                          | _ => false end)
+                                              (tokenize (s_root w) ++ tokenize (r_rel r)))
+                            (s_routes w)) (t_services t).
+
 Definition run_slash (c impl : sexp) : sexp :=
   let O := sx_oracles (sx_nth 0 c) in
   let t := sx_table (sx_nth 1 c) in
@@ -242,6 +252,11 @@ Definition run_slash (c impl : sexp) : sexp :=
   let x2 := route_request O t req2 in
   let i1 := sx_nth 0 impl in
   let i2 := sx_nth 1 impl in
+  (* optionally the OPTIONS filter is installed and the request is an OPTIONS request: the filter answers with the
+     Allow list it computes for the URL (compared as a set of names) *)
+  let opt := sx_bool (sx_nth 3 c) && str_eqb (rq_method req) (L "OPTIONS") in
+  let opt_obs (rq : request) :=
+    Lst [I 1; I 200; of_strs (sort_strs (nodup_str (compute_allowed_methods O t (rq_path rq)))); Lst []; Lst []; A []; I 1] in
   let in_scope := match t_router t with Curly => true | Jsr311 => negb (has_tail_template t) end in
   let cls := match x1 with
              | RInvoke _ _ _ => "invoked"
@@ -259,12 +274,19 @@ Definition run_slash (c impl : sexp) : sexp :=
               | _, _ => false
               end
     end in
-  Lst [ Lst [routed_obs t x1; routed_obs t x2];
+  (* the model of computeAllowedMethods is validated on tables of plain tokens (domain allow); elsewhere the filter's
+     two answers are only compared with each other (the model echoes them) *)
+  let opt_modelled := forallb (fun w => forallb plain_tok (root_tpl w)
+                                        && forallb (fun r => forallb plain_tok (route_tpl w r)) (s_routes w)) (t_services t) in
+  Lst [ (if opt then (if opt_modelled then Lst [opt_obs req; opt_obs req2] else Lst [i1; i2])
+         else Lst [routed_obs t x1; routed_obs t x2]);
         Lst [ verdict "c14_same_outcome" (implb in_scope (sexp_eqb i1 i2));
               verdict "c14_same_outcome_through_servehttp"
                 (implb (in_scope && both_dispatch) (sexp_eqb (sx_nth 2 impl) (sx_nth 3 impl))) ];
         A (L cls);
         Lst [ verdict "in_scope" in_scope; verdict "both_reach_dispatch_through_the_mux" both_dispatch;
+              verdict "options_filter_asked" opt;
+              verdict "kf:K-C14-1" (opt && has_emptiable_token O t);
               verdict "hypotheses_of_C14_jsr"
                 (match t_router t with
                  | Jsr311 => table_plain O t && negb (match rev (rq_path req) with ch :: _ => Ascii.eqb ch slash | [] => true end)
@@ -369,11 +391,16 @@ Definition run_twin (c impl : sexp) : sexp :=
        | None => true
        end in
   Lst [ Lst [routed_obs tc xc; routed_obs tj xj];
-        Lst [ verdict "c18_routers_agree" (implb frag (sexp_eqb (sx_nth 0 impl) (sx_nth 1 impl))) ];
+        Lst [ verdict "c18_routers_agree" (implb frag (sexp_eqb (sx_nth 0 impl) (sx_nth 1 impl)));
+              (* several clients at once under either router: everyone got the answer a lone client gets (third field of
+                 the observation, present when the case asks for a concurrent batch) *)
+              verdict "c18_concurrent_clients_answered_as_alone"
+                      (match sx_list impl with [_; _; flag] => sx_bool flag | _ => true end) ];
         A (L (class_of xc));
         Lst [ verdict "kf:K-C18-1" (negb unamb); verdict "kf:K-C18-2" (negb clean);
               verdict "in_fragment" frag; verdict "hypotheses_of_C18_partial" (frag && clean && unamb);
-              verdict "hypotheses_of_C18_agree" agree_hyps ] ].
+              verdict "hypotheses_of_C18_agree" agree_hyps;
+              verdict "concurrent_batch" (negb (Nat.eqb (List.length (sx_list (sx_nth 3 c))) 0)) ] ].
 
 (* ---- domain "perm" (C03): (oracles table request perms), impl = (obs of the base order, obs per permutation) ---- *)
 Definition apply_perm (t : table) (p : sexp) : table :=
@@ -457,12 +484,14 @@ Definition sx_action (x : sexp) : action :=
   | 3 => AAttr a b
   | 4 => ASee a
   | 6 => ADelHeader a
+  | 7 => APretty (str_eqb a (L "1"))
+  | 8 => AEntity a b
   | _ => APanic a
   end%Z.
 Definition sx_fscript (x : sexp) : fscript :=
   {| f_id := sx_str (sx_nth 0 x); f_pre := map sx_action (sx_list (sx_nth 1 x));
      f_pass := sx_bool (sx_nth 2 x); f_post := map sx_action (sx_list (sx_nth 3 x));
-     f_fresh := sx_bool (sx_nth 4 x); f_mw := sx_nat (sx_nth 5 x) |}.
+     f_fresh := sx_bool (sx_nth 4 x); f_mw := sx_nat (sx_nth 5 x); f_wrap := sx_bool (sx_nth 6 x) |}.
 Definition sx_fscripts (x : sexp) : list fscript := map sx_fscript (sx_list x).
 Definition sx_dcfg (x : sexp) : dcfg :=
   {| d_table := sx_table (sx_nth 0 x);
@@ -600,6 +629,9 @@ Definition run_disp (c impl : sexp) : sexp :=
               verdict "c06_filter_order" v_c06;
               verdict "c06_attributes_reach_later_stages" v_c06_attrs;
               verdict "c06_concurrent_same_as_alone" v_c19_conc;
+              (* the response a filter passes on is the one later stages write to: with wrapping filters in the
+                 configuration the decoded body is what the model computes through the wrappers *)
+              verdict "c06_later_stages_write_through_the_passed_on_response" v_c07_body;
               verdict "c07_encoding_enabled_and_wanted" v_c07;
               verdict "c07_labelled_and_decodes" v_c07_label;
               verdict "c07_body_is_exactly_what_was_written" v_c07_body;
@@ -621,6 +653,11 @@ Definition run_disp (c impl : sexp) : sexp :=
               verdict "history_longer_than_one" (Nat.ltb 1 (List.length hist));
               verdict "has_plain_handler" (negb (Nat.eqb (List.length (d_plain cfg)) 0));
               verdict "script_drops_content_encoding" (cfg_drops_ce cfg);
+              verdict "filter_passes_on_a_wrapped_response"
+                      (existsb f_wrap (d_cfilters cfg) || existsb (fun x => existsb f_wrap (snd x)) (d_sfilters cfg)
+                       || existsb (fun x => existsb f_wrap (snd x)) (d_rfilters cfg));
+              verdict "entity_written_by_script"
+                      (existsb (fun x => existsb (fun a => match a with AEntity _ _ => true | _ => false end) (snd x)) (d_handlers cfg));
               verdict "request_with_cancelled_context" (existsb (fun h => str_eqb (hget (sx_request (sx_nth 1 h)) (L "X-Verif-Cancelled")) (L "1")) hist);
               verdict "client_gone" (existsb (fun h => str_eqb (hget (sx_request (sx_nth 1 h)) (L "X-Verif-Gone")) (L "1")) hist);
               verdict "trace_logging_on" (sx_bool (sx_nth 12 (sx_nth 1 c))) ] ].
@@ -862,7 +899,10 @@ Definition run_ent (c impl : sexp) : sexp :=
               verdict "c16_history_independent" v_hist;
               verdict "c16_concurrent_same" v_conc;
               verdict "c13_readers_released_once" (v_led && Z.eqb (sx_int (sx_nth 3 led)) 0);
-              verdict "c13_readers_never_shared" (Z.eqb (sx_int (sx_nth 2 led)) 0) ];
+              verdict "c13_readers_never_shared" (Z.eqb (sx_int (sx_nth 2 led)) 0);
+              (* exclusive use, as a client sees it: bodies decoded while other requests are in flight come out as they
+                 do alone *)
+              verdict "c13_concurrent_bodies_decoded_as_alone" v_conc ];
         A (L cls);
         Lst [ verdict "all_faithful" (forallb faithful reqs); verdict "concurrent" (negb (Z.eqb mode 0));
               verdict "history_longer_than_one" (Nat.ltb 1 (List.length reqs)) ] ].
@@ -875,7 +915,10 @@ Definition run_neg (c impl : sexp) : sexp :=
   let reg := sx_strs (sx_nth 1 c) in
   let produces := sx_strs (sx_nth 2 c) in
   let dflt := sx_str (sx_nth 3 c) in
-  let accept := sx_str (sx_nth 4 c) in
+  (* several Accept header lines (separated by a line feed in the case): Header.Get answers with the first line,
+     for the router and for the entity writer alike *)
+  let accept_lines := split (ascii_of_nat 10) (sx_str (sx_nth 4 c)) in
+  let accept := hd [] accept_lines in
   let dummy := {| r_id := 0; r_method := []; r_rel := []; r_consumes := []; r_produces := produces;
                   r_conds := []; r_noct := []; r_enc := None |} in
   let admitted := matches_accept dummy (match accept with [] => L "*/*" | a => a end) in
@@ -914,6 +957,7 @@ Definition run_neg (c impl : sexp) : sexp :=
         A (L cls);
         Lst [ verdict "in_premise" scope; verdict "admitted" admitted;
               verdict "several_ranges" (Nat.ltb 1 (List.length (split comma accept)));
+              verdict "several_accept_lines" (Nat.ltb 1 (List.length accept_lines));
               verdict "content_type_preset_on_response" (negb (str_eqb (sx_str (sx_nth 6 c)) [])) ] ].
 
 Definition run_case (c impl : sexp) : sexp :=
